@@ -4,6 +4,8 @@ from hypothesis import strategies as st
 from vlib import gen, oracle, lib, mutate
 from vlib.harness import HypSub, EnumSub
 from vlib.lib import Violation
+from corankco.dataset import Dataset
+from corankco.ranking import Ranking
 
 META = {
     "level": "exploration",
@@ -254,12 +256,100 @@ def check_reuse(case, ctx):
                                 "get_kemeny_score(%s) on dataset %d of a reused factory (pass %d)" % (cand, k, rnd))
 
 
+@st.composite
+def huge_cases(draw, tier):
+    """tens of thousands of elements in a few classes: (bucket of the candidate, place in each of 1-3 input rankings).
+    The expected score is a closed form over the class sizes (exact integers); the counters of the library see
+    products of the order of 2**31 and more"""
+    nb_c = draw(st.sampled_from([1, 2, 3]))
+    m = draw(st.sampled_from([1, 2, 3]))
+    classes = []
+    for _ in range(draw(st.sampled_from([2, 3, 4]))):
+        classes.append({"size": draw(st.sampled_from([1, 3, 1000, 40000, 50000, 70000])),
+                        "cand": draw(st.integers(0, nb_c - 1)),
+                        "places": [draw(st.sampled_from([None, 0, 0, 1])) for _ in range(m)]})
+    classes.append({"size": draw(st.sampled_from([50000, 70000, 100000])), "cand": draw(st.integers(0, nb_c - 1)),
+                    "places": [draw(st.sampled_from([None, None, 0])) for _ in range(m)]})
+    if not any(c["places"][j] is not None for c in classes for j in range(m)):
+        classes[0]["places"][0] = 0
+    return {"classes": classes, "scheme": draw(st.one_of(gen.free_schemes(), gen.preset_multiples()))}
+
+
+def check_huge(case, ctx):
+    classes, scheme = case["classes"], case["scheme"]
+    m = len(classes[0]["places"])
+    # elements: consecutive ints per class
+    start, members = 0, []
+    for c in classes:
+        members.append(range(start, start + c["size"]))
+        start += c["size"]
+    nb_c = max(c["cand"] for c in classes) + 1
+    cand = [set() for _ in range(nb_c)]
+    for c, mem in zip(classes, members):
+        cand[c["cand"]].update(mem)
+    cand = [b for b in cand if b]
+    rankings = []
+    for j in range(m):
+        buckets = [set(), set()]
+        for c, mem in zip(classes, members):
+            if c["places"][j] is not None:
+                buckets[c["places"][j]].update(mem)
+        rankings.append([b for b in buckets if b])
+    # renumber candidate buckets / places after dropping empty ones
+    def cand_pos(c):
+        return sorted({k["cand"] for k in classes}).index(c["cand"])
+
+    def place(c, j):
+        if c["places"][j] is None:
+            return None
+        used = sorted({k["places"][j] for k in classes if k["places"][j] is not None})
+        return used.index(c["places"][j])
+    sc = oracle.Scaled(scheme)
+    total = 0
+    for a in range(len(classes)):
+        for b in range(a, len(classes)):
+            ca, cb = classes[a], classes[b]
+            npairs = ca["size"] * cb["size"] if a != b else ca["size"] * (ca["size"] - 1) // 2
+            if npairs == 0:
+                continue
+            for j in range(m):
+                pa, pb = place(ca, j), place(cb, j)
+                if cand_pos(ca) == cand_pos(cb):
+                    if pa is None and pb is None:
+                        st_ = 5
+                    elif pa is None or pb is None:
+                        st_ = 3
+                    else:
+                        st_ = 2 if pa == pb else 0
+                    total += npairs * sc.T[st_]
+                else:
+                    (fa, fpa), (fb, fpb) = ((ca, pa), (cb, pb)) if cand_pos(ca) < cand_pos(cb) else ((cb, pb), (ca, pa))
+                    if fpa is None and fpb is None:
+                        st_ = 5
+                    elif fpb is None:
+                        st_ = 3
+                    elif fpa is None:
+                        st_ = 4
+                    else:
+                        st_ = 0 if fpa < fpb else (1 if fpa > fpb else 2)
+                    total += npairs * sc.B[st_]
+    want = sc.to_fraction(total)
+    n = sum(c["size"] for c in classes)
+    ctx.stats.case(case, n >= 90000, ["n>=90000" if n >= 90000 else "n<90000", "m:%d" % m])
+    d = Dataset([Ranking(r) for r in rankings])
+    got = lib.must(lib.KemenyComputingFactory(lib.mk_scheme(scheme)).get_kemeny_score, Ranking(cand), d)
+    if abs(float(got) - float(want)) > 1e-9 * max(1.0, abs(float(want))):
+        raise Violation("classes %s: get_kemeny_score = %r, the definition (closed form over the class sizes) gives %s"
+                        % ([(c["size"], c["cand"], c["places"]) for c in classes], got, want))
+
+
 def subchecks():
     return [
         HypSub("score_random", score_cases, check_score, quick=12000, thorough=200000),
         HypSub("score_refusal", refusal_cases, check_refusal, quick=1500, thorough=30000),
         HypSub("consensus_lazy", lazy_cases, check_lazy, quick=1500, thorough=30000),
         HypSub("factory_reuse", reuse_cases, check_reuse, quick=1500, thorough=20000),
+        HypSub("score_huge_classes", huge_cases, check_huge, quick=48, thorough=400),
         HypSub("score_large", large_cases, check_score, quick=400, thorough=5000),
         EnumSub("small_scope", small_datasets, check_small),
     ]
